@@ -1100,7 +1100,11 @@ func (n ExportStmt) JS(w io.Writer) {
 		}
 		w.Write([]byte(" "))
 		n.Decl.JS(w)
-		w.Write([]byte(";"))
+		_, isFunc := n.Decl.(*FuncDecl)
+		_, isClass := n.Decl.(*ClassDecl)
+		if !isFunc && !isClass {
+			w.Write([]byte(";")) // a function or class declaration is not terminated by a semicolon
+		}
 		return
 	} else if len(n.List) == 1 && (len(n.List[0].Name) == 1 && n.List[0].Name[0] == '*' || n.List[0].Name == nil && len(n.List[0].Binding) == 1 && n.List[0].Binding[0] == '*') {
 		w.Write([]byte(" "))
